@@ -115,6 +115,8 @@ M = [
  ("N-7", [], [(D, "\t\tvar grp errgroup.Group\n\t\tfor idx, ctr := range containers {\n\t\t\tctr := ctr\n\t\t\tgrp.Go(func() error {", "\t\tvar grp errgroup.Group\n\t\tgrp.SetLimit(1)\n\t\tfor idx, ctr := range containers {\n\t\t\tctr := ctr\n\t\t\tgrp.Go(func() error {")], "NEUTRAL: opens serialised (errgroup limit 1)"),
  ("N-8", [], [(MI, "\tdefault:\n\t\t// heap.Pop removed drained iterator from heap.\n\t\treturn true", "\tdefault:\n\t\t// heap.Pop removed drained iterator from heap.\n\t\t_ = iter.Close()\n\t\treturn true")], "NEUTRAL: drained sources closed early (and again at the end)"),
  ("N-9", [], [(ES, "\t\tif !i.iter.Next(&record) || (i.limit > 0 && i.entries >= i.limit) {", "\t\tif (i.limit > 0 && i.entries >= i.limit) || !i.iter.Next(&record) {")], "NEUTRAL: limit checked before pulling the next record (no read past the limit)"),
+ ("N-10", [], [(AL, "\tset.Range(func(l logql.Label, v pcommon.Value) {\n", "\tset.Range(func(l logql.Label, v pcommon.Value) {\n\t\tif v.AsString() == \"\" {\n\t\t\t// Prometheus semantics: an empty label is no label.\n\t\t\treturn\n\t\t}\n")], "NEUTRAL: metric samples drop empty-valued labels consistently (key and reported set)"),
+ ("N-11", [], [(D, "since = strconv.FormatInt(t.Unix(), 10)", "since = t.Truncate(time.Second).UTC().Format(time.RFC3339)"), (D, 'import (\n\t"context"', 'import (\n\t"context"\n\t"time"')], "NEUTRAL: since spelled as RFC 3339 of the truncated instant"),
  ("N-1", [], [(MI, "return a.record.Timestamp < b.record.Timestamp", "return a.record.Timestamp <= b.record.Timestamp")], "NEUTRAL? heap Less with <= (changes tie order deterministically)"),
  ("N-2", [], [(D, "\t\tvar grp errgroup.Group\n", "\t\tvar grp errgroup.Group\n\t\tgrp.SetLimit(2)\n")], "NEUTRAL: errgroup limit 2"),
  ("N-3", [], [(DL, "\ti.buf.Reset()\n", "\ti.buf.Reset()\n\ti.buf.Grow(4096)\n")], "NEUTRAL: buffer pre-grown"),
